@@ -80,6 +80,30 @@ func errorsPropagate(r *Run, rule string, fn *ssa.Function, calleePat string) {
 				r.Fail(rule, FnName(fn)+"#"+shortCallee(c), p.Ret.Pos(), "success is reported although the result of "+shortCallee(c)+" was not established to be error-free", nil, nil)
 			}
 		}
+		// the error result is looked at at all (not overwritten by a later call before any test)
+		tested := false
+		nres := call.Call.Signature().Results().Len()
+		for _, ref := range *call.Referrers() {
+			ex, isEx := ref.(*ssa.Extract)
+			if !isEx || ex.Index != nres-1 {
+				continue
+			}
+			for _, r2 := range *ex.Referrers() {
+				if bo, isB := r2.(*ssa.BinOp); isB && (isNilConst(bo.X) || isNilConst(bo.Y)) {
+					tested = true
+				}
+				if _, isPhi := r2.(*ssa.Phi); isPhi {
+					tested = true // flows into a merged error value that is tested later
+				}
+				if _, isRet := r2.(*ssa.Return); isRet {
+					tested = true
+				}
+			}
+		}
+		if !tested {
+			bad = true
+			r.Fail(rule, FnName(fn)+"#"+shortCallee(c), c.Pos(), "the error result of "+shortCallee(c)+" is never tested (it is dropped or overwritten before any check)", nil, nil)
+		}
 		if !bad {
 			r.Ok(rule, FnName(fn)+"#"+shortCallee(c), c.Pos(), "an error of this call fails the function")
 		}
